@@ -199,6 +199,34 @@ class Script:
         self.meta.append(meta)
         st["off"] = None   # unknown to the driver from here on (the trace spec tracks it)
 
+    def asm_file(self, i, keys, path, count=None, twin=True, expectfail=False):
+        st = self._st(i)
+        meta = {"prog": list(keys)}
+        if expectfail:
+            meta["expectfail"] = True
+        if twin and st["ext"] and st["off"] is not None and not expectfail:
+            self.lines.append("W %d %d %d %d %d" % (OPTV[st["opt"][0]], OPTV[st["opt"][1]], OPTV[st["opt"][2]], st["fit"], st["off"]))
+            self.meta.append(None)
+            meta["twcfg"] = [st["opt"][0], st["opt"][1], st["opt"][2], st["fit"], st["off"]]
+            fl = "t"
+        else:
+            fl = "-"
+        tag = "t%d" % len(self.lines)
+        if count is None:
+            self.lines.append("T %d %s %s %s" % (i, fl, tag, hx(path)))
+        else:
+            self.lines.append("U %d %d %s %s %s" % (i, count, fl, tag, hx(path)))
+        self.meta.append(meta)
+        st["off"] = None
+
+    def binfile(self, i, path, expectfail=False):
+        self.lines.append("B %d %s" % (i, hx(path)))
+        self.meta.append({"expectfail": True} if expectfail else {})
+
+    def arm(self, call, nth):
+        self.lines.append("Z %s %d" % (call, nth))
+        self.meta.append({})
+
     def text(self):
         return "\n".join(self.lines + ["E"]) + "\n"
 
@@ -309,7 +337,8 @@ def random_history(sid, L, rnd, flavour):
 # ----------------------------------------------------------------------------- execution + validation
 def execute(scripts, L):
     """run scripts through apirun (sharded); returns list of per-script event lists"""
-    exe = A.build_harness("apirun")
+    exe = A.build_harness("apirun", extra=["-Wl,--wrap=malloc,--wrap=free,--wrap=mmap,--wrap=mremap,--wrap=munmap,--wrap=open,--wrap=fstat,--wrap=read,"
+                                             "--wrap=close,--wrap=fopen,--wrap=fwrite,--wrap=fclose"])
     jobs = A.NCPU
     work = os.path.join(A.BUILD, "work")
     os.makedirs(work, exist_ok=True)
@@ -365,7 +394,7 @@ def execute(scripts, L):
     return results
 
 
-BAD_RE = re.compile(r'^<<"BAD", "([^"]*)", "([^"]*)", (-?\d+), "([^"]*)", "([^"]*)">>')
+BAD_RE = re.compile(r'^"BAD\|([^|]*)\|([^|]*)\|(-?\d+)\|([^|]*)\|([^|]*)"$')
 
 
 def validate(results, L, shards=None):
@@ -408,6 +437,10 @@ def validate(results, L, shards=None):
             os.replace(tr, keep)
             raise A.Infra("ApiTrace TLC failed (rc=%s) on %s:\n%s" % (p.returncode, keep, out[-4000:]))
         judged += n - 1
+        nraw = sum(1 for ln in out.splitlines() if "BAD" in ln)
+        nparsed = sum(1 for ln in out.splitlines() if BAD_RE.match(ln))
+        if nraw != nparsed:
+            raise (Infra if "alverif" in __name__ else A.Infra)("monitor output has %d BAD lines but %d could be parsed:\n%s" % (nraw, nparsed, "\n".join(l for l in out.splitlines() if "BAD" in l)[:2000]))
         for ln in out.splitlines():
             mm = BAD_RE.match(ln)
             if mm:
@@ -426,6 +459,7 @@ PLAN = {
     "C13": (["MC_C13"], "C13", 400, 4000),
     "C14": (["MC_C14"], "C14", 400, 4000),
     "C15": (["MC_C15"], "C15", 800, 10000),
+    "C19": ([], "C19", 0, 0),
 }
 QUICK_REPLAY = {"MC_C13": 6000, "MC_C07": 8000, "MC_C08": 4000, "MC_C14": 6000, "MC_C15": 8000, "MC_C12": None, "MC_C06": None}
 
@@ -467,7 +501,21 @@ def run(prop, tier, replay=None):
             scripts += c08_boundary(L, rnd, tier)
         if prop == "C13":
             scripts += c13_boundary(L, rnd, tier)
+        if prop == "C19":
+            scripts += c19_scripts(L, rnd, tier)
     results = execute(scripts, L)
+    if prop == "C19":
+        return finish(prop, tier, t0, results, L, stats_all, viol_model, replay, level="exploration",
+                      rule="File contents of every size of the TLC-enumerated set FILESIZES (0..3, every size within +-40 of 4096 and +-20 of 8192, 12288; quick: a subset) are generated "
+                           "from pool lines padded with comment text to the exact size, with and without final line end, LF and CRLF; both file entry points run next to a fresh twin that "
+                           "assembles the same contents with the string entry points (spec/ApiTrace.tla requires identical return value, offset, count and bytes and also validates the call "
+                           "against the mechanism); missing paths and directories must fail without writing; asm_create_bin_file is checked at the offsets of BINOFFSETS (file length and "
+                           "hash = buffer prefix) and on an unwritable path. distinct_nontrivial = distinct (size, line-end, entry point) cases.",
+                      nontrivial=len({sc.sid.split("-")[-1] + str(k % 6) for k, (sc, _) in enumerate(results)}))
+    return finish(prop, tier, t0, results, L, stats_all, viol_model, replay)
+
+
+def finish(prop, tier, t0, results, L, stats_all, viol_model, replay, extra_cov=None, level=None, rule=None, nontrivial=None):
     bad, judged = validate(results, L)
     bysid = {sc.sid: (sc, evs) for sc, evs in results}
     mine, drift, others = [], collections.Counter(), collections.Counter()
@@ -487,6 +535,9 @@ def run(prop, tier, replay=None):
             mine.append((sid, r, evname))
         else:
             others[reason] += 1
+            if others[reason] <= 2:
+                sc0, evs0 = bysid[sid]
+                A.write_replay(prop, "other-%s-%s" % (sid, reason), {"property": prop, "reason": reason, "sid": sid, "script": sc0.lines, "meta": sc0.meta, "events": evs0})
     known = [e for e in A.load_known() if e["property"] == prop and e.get("status") == "open"]
     kf, viol = collections.OrderedDict(), []
     for sid, r, evname in mine:
@@ -530,8 +581,14 @@ def run(prop, tier, replay=None):
            "models": stats_all, "executions": len(results), "events_judged": judged, "model_drift": dict(drift),
            "known_findings": {k: v[1] for k, v in kf.items()}, "other_property_observations": dict(others),
            "exhaustive": tier == "thorough" and not replay}
+    if extra_cov:
+        cov.update(extra_cov)
+    if rule:
+        cov["rule"] = rule
+    if nontrivial is not None:
+        cov["distinct_nontrivial"] = nontrivial
     if not replay:
-        A.write_evidence(prop, tier, LEVEL, cov, wall, nviol,
+        A.write_evidence(prop, tier, level or LEVEL, cov, wall, nviol,
                          ["TLC explores the bounded model completely (constants in coverage.models)", "the scaled constants preserve every branch condition of the mechanism (cap - T distance)",
                           "apirun's two-pattern diff and canaries see every written byte", "hooks report the logical capacity truthfully"])
     print("%s %s: %d model states, %d transitions, %d executions (%d accepted), %d events judged, %d violations, %.1fs" %
@@ -622,4 +679,196 @@ def c13_boundary(L, rnd, tier):
     return out
 
 
+# ----------------------------------------------------------------------------- C19 files
+def filedir():
+    d = os.path.join(A.BUILD, "files-%d" % os.getpid())
+    os.makedirs(d, exist_ok=True)
+    import atexit
+    atexit.register(lambda: shutil.rmtree(d, ignore_errors=True))
+    return d
+
+
+def file_content(L, rnd, size, eol, final_newline):
+    """a program of pool lines padded with comment text to exactly `size` bytes; returns (bytes, keys)"""
+    keys, lines = [], []
+    if size == 0:
+        return b"", []
+    budget = size
+    body = []
+    while True:
+        k = rnd.choice(L.bylen[rnd.choice(sorted(L.bylen))])
+        t = L.text[k]
+        need = len(t) + len(eol)
+        if sum(len(x) + len(eol) for x in body) + need > budget - 2 or len(body) >= 12:
+            break
+        body.append(t); keys.append(k)
+    text = eol.join(body)
+    if body:
+        text += eol
+    rest = size - len(text)
+    # fill with comment lines of at most 90 characters; the file ends with a line end only if asked and possible
+    filler = ""
+    tail = eol if (final_newline and rest > len(eol)) else ""
+    rest -= len(tail)
+    while rest > 0:
+        n = min(rest, 90)
+        if rest - n > 0:
+            if n <= len(eol):
+                n = rest            # too short for another full line: extend this one
+                filler += ";" + "c" * (n - 1)
+            else:
+                filler += ";" + "c" * (n - 1 - len(eol)) + eol
+        else:
+            filler += ";" + "c" * (n - 1)
+        rest -= n
+    filler += tail
+    text += filler
+    data = text.encode("latin-1")
+    assert len(data) == size, (len(data), size)
+    return data, keys
+
+
+def c19_scripts(L, rnd, tier):
+    d = filedir()
+    sizes = [json.loads(l)["n"] for l in open(A.corpus("FILESIZES"))]
+    offs = [json.loads(l)["n"] for l in open(A.corpus("BINOFFSETS"))]
+    if tier == "quick":
+        keep = {0, 1, 2, 3, 4095, 4096, 4097, 8191, 8192, 8193, 12288}
+        sizes = [x for x in sizes if x in keep or x % 5 == 0]
+    out, n = [], 0
+    for size in sorted(sizes):
+        for (eol, fin) in (("\n", True), ("\n", False), ("\r\n", True)):
+            for cnt in (None, 16):
+                data, keys = file_content(L, rnd, size, eol, fin)
+                path = os.path.join(d, "f%d.asm" % n)
+                open(path, "wb").write(data)
+                sc = Script("C19-f%d-s%d" % (n, size)); n += 1
+                sc.create(1, "ext", 700)
+                if rnd.random() < 0.3:
+                    sc.opt(1, "all", rnd.choice(["STRICT", "NASM"]))
+                if cnt is None and rnd.random() < 0.3:
+                    sc.chunk(1, 16)
+                sc.offset(1, rnd.choice([0, 0, 7, 33]))
+                sc.asm_file(1, keys, path, count=cnt)
+                sc.binfile(1, path + ".bin")
+                out.append(sc)
+    # missing path, directory
+    for bad in (os.path.join(d, "does-not-exist.asm"), d, "/proc/self/nonexistent/x.asm"):
+        for cnt in (None, 8):
+            sc = Script("C19-bad%d" % n); n += 1
+            sc.create(1, "ext", 200)
+            k = L.bylen[3][0]
+            sc.asm(1, [k], [L.text[k]])
+            sc.asm_file(1, [], bad, count=cnt, expectfail=True)
+            sc.asm(1, [k], [L.text[k]])
+            out.append(sc)
+    # binary output at the listed offsets (library-managed buffer, grown where needed) and to an unwritable path
+    one = next(x for x in L.bylen[1] if L.text[x] == "nop")
+    big = L.bylen[max(k for k in L.bylen if k <= 11)][0]
+    bl = len(L.codes[big][0])
+    for off in offs:
+        sc = Script("C19-bin%d-o%d" % (n, off)); n += 1
+        sc.create(1, "int", 0)
+        keys = [big] * (off // bl) + [one] * (off % bl)
+        if keys:
+            sc.asm(1, keys, [L.text[x] for x in keys])
+        sc.binfile(1, os.path.join(d, "o%d.bin" % n))
+        sc.binfile(1, os.path.join(d, "no-such-dir", "o.bin"), expectfail=True)
+        out.append(sc)
+    return out
+
+
+# ----------------------------------------------------------------------------- C17 faults
+def c17_scenarios(L, rnd):
+    d = filedir()
+    one = next(x for x in L.bylen[1] if L.text[x] == "nop")
+    big = L.bylen[max(k for k in L.bylen if k <= 11)][0]
+    bl = len(L.codes[big][0])
+    small = [L.bylen[3][0], L.bylen[1][0]]
+    long_keys = [big] * (12100 // bl)
+    smallfile = os.path.join(d, "small.asm")
+    open(smallfile, "w").write("\n".join(L.text[k] for k in small) + "\n")
+    bigfile = os.path.join(d, "big.asm")
+    open(bigfile, "w").write("\n".join(L.text[k] for k in long_keys[: 6100 // bl]) + "\n")
+    scs = []
+
+    def S(name):
+        sc = Script("C17-" + name)
+        scs.append(sc)
+        return sc
+    sc = S("create-int"); sc.create(1, "int", 0); sc.asm(1, small, [L.text[k] for k in small]); sc.destroy(1)
+    sc = S("create-ext"); sc.create(1, "ext", 200); sc.asm(1, small, [L.text[k] for k in small]); sc.destroy(1)
+    for mode in ("plain", "fit", "count"):
+        sc = S("grow-" + mode); sc.create(1, "int", 0)
+        sc.asm(1, small, [L.text[k] for k in small])
+        if mode == "fit":
+            sc.chunk(1, 16)
+        sc.asm(1, long_keys, [L.text[k] for k in long_keys], count=16 if mode == "count" else None)
+        sc.asm(1, small, [L.text[k] for k in small])
+        sc.binfile(1, os.path.join(d, "g-%s.bin" % mode))
+        sc.destroy(1)
+    for cnt in (None, 8):
+        sc = S("file-" + ("count" if cnt else "plain")); sc.create(1, "int", 0)
+        sc.asm(1, small, [L.text[k] for k in small])
+        sc.asm_file(1, small, smallfile, count=cnt, twin=False)
+        sc.asm_file(1, long_keys[: 6100 // bl], bigfile, count=cnt, twin=False)
+        sc.asm(1, small, [L.text[k] for k in small])
+        sc.destroy(1)
+    sc = S("binfile"); sc.create(1, "ext", 300); sc.asm(1, small * 3, [L.text[k] for k in small * 3])
+    sc.binfile(1, os.path.join(d, "b1.bin")); sc.binfile(1, os.path.join(d, "b2.bin")); sc.destroy(1)
+    return scs
+
+
+def run_c17(prop, tier, replay=None):
+    t0 = time.time()
+    A.build("plain")
+    A.build_harness("linerun")
+    rnd = random.Random(A.SEED * 31 + 17)
+    L = Lines()
+    base = c17_scenarios(L, rnd)
+    res0 = execute(base, L)
+    # observed OS-call sequences per API call -> TLC enumerates the single faults
+    work = os.path.join(A.BUILD, "work")
+    obs = os.path.join(work, "obs-%d.ndjson" % os.getpid())
+    with open(obs, "w") as f:
+        for sc, evs in res0:
+            ops = [e.get("calls", "") for e in evs if e["e"] not in ("Reset",)]
+            f.write(json.dumps({"s": sc.sid, "ops": ops}) + "\n")
+    pts = os.path.join(work, "points-%d.ndjson" % os.getpid())
+    rc, out = A.tlc("AsmFaults", env={"OBS": obs, "OUT": pts}, tag="faults-%d" % os.getpid())
+    if rc != 0 or not os.path.exists(pts):
+        raise A.Infra("fault enumeration failed:\n" + out[-3000:])
+    points = [json.loads(l) for l in open(pts)]
+    os.unlink(obs); os.unlink(pts)
+    bysid = {sc.sid: sc for sc in base}
+    scripts = list(base)
+    for k, p in enumerate(sorted(points, key=lambda q: (q["s"], q["op"], q["call"], q["nth"]))):
+        b = bysid[p["s"]]
+        sc = Script("%s+%s%d@%d" % (b.sid, p["call"], p["nth"], p["op"]))
+        # op index counts events; W lines produce no event
+        evidx, lines, meta = 0, [b.lines[0]], []
+        for ln, m in zip(b.lines[1:], b.meta):
+            if m is not None:
+                evidx += 1
+                if evidx == p["op"]:
+                    lines.append("Z %s %d" % (p["call"], p["nth"])); meta.append({})
+            if ln.startswith("B "):
+                # every script writes its own output file (scripts run in parallel)
+                parts = ln.split()
+                ln = "B %s %s" % (parts[1], hx(bytes.fromhex(parts[2]).decode("latin-1") + ".%d" % k))
+            lines.append(ln); meta.append(m)
+        sc.lines, sc.meta = lines, meta
+        scripts.append(sc)
+    results = execute(scripts, L)
+    fired = sum(1 for sc, evs in results if any(e.get("inj") for e in evs))
+    return finish(prop, tier, t0, results, L, [], [], replay,
+                  extra_cov={"fault_points": len(points), "faults_fired": fired, "scenarios": [sc.sid for sc in base]},
+                  level="fault_enumeration",
+                  rule="Fault-free runs of the scenarios record, through link-time wrappers, every OS call the library makes per API call; TLC (spec/AsmFaults.tla) enumerates every single "
+                       "refusal of each of them (plus a short fwrite); each is replayed with exactly that call refused and the execution is judged by spec/ApiTrace.tla: documented failure "
+                       "value, no crash, earlier code intact, later calls and destroy still work, asm_create_bin_file succeeds only with a complete file. distinct_nontrivial = fault points "
+                       "whose refusal actually fired.", nontrivial=fired)
+
+
 HANDLERS = {p: run for p in PLAN}
+HANDLERS["C17"] = run_c17
